@@ -42,6 +42,18 @@ func (e *requestBodyTooLargeError) Error() string {
 	return fmt.Sprintf("Request body exceeds max_request_bytes=%d", e.Limit)
 }
 
+// decodedBodyTooLargeError is decompressBounded's refusal of a body that
+// decodes past its cap. Which cap that was — the advertised max_request_bytes
+// (413) or the server's own decompressed-size bound (400) — is the caller's
+// knowledge, not the decoder's.
+type decodedBodyTooLargeError struct {
+	Limit int64
+}
+
+func (e *decodedBodyTooLargeError) Error() string {
+	return fmt.Sprintf("Decompressed request body exceeds maximum size of %d bytes", e.Limit)
+}
+
 func buildHTTPTransportMeta(ipcMeta map[string]string, r *http.Request) map[string]string {
 	meta := make(map[string]string, len(ipcMeta)+4)
 	for k, v := range ipcMeta {
@@ -180,7 +192,16 @@ func (h *HttpServer) readHTTPBody(r *http.Request) ([]byte, error) {
 			// negative value): no decoded-size cap of its own.
 			decompressedCap = 0
 		}
-		return decompressBounded(encoding, body, decompressedCap)
+		decoded, derr := decompressBounded(encoding, body, decompressedCap)
+		var tooLarge *decodedBodyTooLargeError
+		if errors.As(derr, &tooLarge) {
+			// 413 names the advertised request cap and nothing else.
+			if requestCapApplied && decompressedCap == limit {
+				return nil, &requestBodyTooLargeError{Limit: limit}
+			}
+			return nil, &RpcError{Type: "ValueError", Message: tooLarge.Error()}
+		}
+		return decoded, derr
 	default:
 		return nil, &unsupportedEncodingError{Encoding: encoding}
 	}
